@@ -6,6 +6,7 @@ import importlib, json, os, sys
 sys.path.insert(0, "/verif")
 pid = sys.argv[1]
 os.environ["VERIF_TIER"] = sys.argv[2] if len(sys.argv) > 2 else "quick"
+os.environ["VERIF_DEVRUN"] = "1"
 from harness import core
 core.setup_imports()
 import coverage
